@@ -100,6 +100,9 @@ type Net struct {
 	OnEmit func(n *Node, m pbft.ConsensusMessage)
 	// OnCommit observes every commit of an honest node.
 	OnCommit func(n *Node, c Committed)
+	// OnQueued observes the messages a node has just signed and queued for itself during the
+	// step that ended (they are in custody, not yet processed or broadcast).
+	OnQueued func(n *Node, ms []pbft.ConsensusMessage)
 }
 
 // ---------------------------------------------------------------------------------------
@@ -289,7 +292,11 @@ func (n *Node) boot() {
 
 // after is run after every step of the node: own messages go into custody, commits are noted.
 func (n *Node) after() {
-	n.Own = append(n.Own, n.Ctl.DrainInternal()...)
+	fresh := n.Ctl.DrainInternal()
+	n.Own = append(n.Own, fresh...)
+	if len(fresh) > 0 && n.net.OnQueued != nil {
+		n.net.OnQueued(n, fresh)
+	}
 	for h := n.lastCommitted() + 1; h <= n.Store.Height(); h++ {
 		meta := n.Store.LoadBlockMeta(h)
 		c := Committed{Height: h, Hash: meta.Hash}
